@@ -128,6 +128,12 @@ def _scenarios() -> list[Scn]:
     for inv in B:
         S.append(Scn(f"cover.updown(invert={inv})", lambda x, inv=inv: D.Cover(x, "d", group_address_long="1/3/1", group_address_stop="1/3/2", invert_updown=inv, travel_time_down=20, travel_time_up=20),
                      lambda d, v: d.set_down() if v else d.set_up(), lambda d: d.current_position(), B, lambda q, r: r == (100 if q else 0), settle=45.0, pairs=True))
+    # a cover that only has a position address: end-position commands go out as positions
+    for inv in B:
+        S.append(Scn(f"cover.position-only.updown(invert={inv})", lambda x, inv=inv: D.Cover(x, "d", group_address_position="1/3/3", invert_position=inv, travel_time_down=20, travel_time_up=20),
+                     lambda d, v: d.set_down() if v else d.set_up(), lambda d: d.current_position(), B, lambda q, r: r == (100 if q else 0), settle=45.0, pairs=True))
+        S.append(Scn(f"cover.position-only(invert={inv})", lambda x, inv=inv: D.Cover(x, "d", group_address_position="1/3/3", invert_position=inv, travel_time_down=20, travel_time_up=20),
+                     lambda d, v: d.set_position(v), lambda d: d.current_position(), [0, 1, 50, 99, 100], lambda q, r: nearest_ok(q, r, scaling_image(0, 100)), settle=45.0, pairs=False))
     # fan
     S.append(Scn("fan.percent", lambda x: D.Fan(x, "d", group_address_speed="1/4/1"), lambda d, v: d.set_speed(v), lambda d: d.current_speed, list(range(101)), lambda q, r: nearest_ok(q, r, scaling_image(0, 100))))
     S.append(Scn("fan.step", lambda x: D.Fan(x, "d", group_address_speed="1/4/1", max_step=3), lambda d, v: d.set_speed(v), lambda d: d.current_speed, [0, 1, 2, 3], eq))
